@@ -458,3 +458,19 @@ func (k *vfSkel) writeBytes(to int, b []byte) error {
 	_, err := st.Write(b)
 	return err
 }
+
+// reopenOut opens a second outbound stream to node `to` while the first stays open (as a peer does that respawns its
+// writer without noticing that the old stream still lives); later writes use the new stream.
+func (k *vfSkel) reopenOut(to int, proto protocol.ID) error {
+	ctx, cancel := context.WithTimeout(context.Background(), 5*time.Second)
+	defer cancel()
+	st, err := k.h.NewStream(ctx, k.s.hosts[to].ID(), proto)
+	if err != nil {
+		return err
+	}
+	k.mu.Lock()
+	k.out[to] = st // the old stream object is simply left open; closing the host ends it
+	k.outW[to] = msgio.NewVarintWriter(st)
+	k.mu.Unlock()
+	return nil
+}
